@@ -64,12 +64,17 @@ def gen_vectors(maxlen):
     for n in range(maxlen + 1):
         for mask in itertools.product((0, 1), repeat=n):
             yield {'shape': 'vec', 'mask': list(mask)}          # 1 = NaN
+            if 0 < n <= 5:
+                yield {'shape': 'vec', 'mask': list(mask), 'vals': 'inf'}        # the non-NaN cells are +inf / -inf / finite in turn
 
 
 def gen_frames(maxrows):
     for n in range(maxrows + 1):
         for mask in itertools.product((0, 1), repeat=2 * n):
             yield {'shape': 'frame', 'mask': [[mask[2 * i], mask[2 * i + 1]] for i in range(n)]}
+            if n:
+                # +inf next to -inf in one row: infinities are observations, not missing cells (a row total would cancel to NaN)
+                yield {'shape': 'frame', 'mask': [[mask[2 * i], mask[2 * i + 1]] for i in range(n)], 'vals': 'inf'}
 
 
 # ------------------------------------------------------------------------------------------------
@@ -342,10 +347,16 @@ def check(case):
     if case['shape'] == 'vec':
         n = len(case['mask'])
         cols = [[None if case['mask'][i] else 10.0 * i + 1 for i in range(n)]]
+        if case.get('vals') == 'inf':
+            INF = float('inf')
+            cols = [[None if case['mask'][i] else (INF, -INF, 10.0 * i + 1)[i % 3] for i in range(n)]]
         pairs = [('series', 'arr1'), ('df1', 'arr21')]
     else:
         n = len(case['mask'])
         cols = [[None if case['mask'][i][j] else 10.0 * (2 * i + j) + 1 for i in range(n)] for j in range(2)]
+        if case.get('vals') == 'inf':
+            INF = float('inf')
+            cols = [[None if case['mask'][i][j] else ((INF, -INF)[j] if i % 2 == 0 else (-1e308, INF)[j]) for i in range(n)] for j in range(2)]
         pairs = [('df2', 'arr22')]
     flat = [v for c in cols for v in c]
     mixed = any(v is None for v in flat) and any(v is not None for v in flat)
